@@ -5,6 +5,7 @@ from kfv.core import Ctx
 from kfv.rules import coh_rules as C
 from kfv.rules import precond_rules as R
 from kfv.rules import tensor_rules as TR
+from kfv.rules.c10 import rule_num_prescale
 
 TECHNIQUE = ('polynomial normal forms of the running-average / accumulation updates by symbolic evaluation per branch valuation; abstract '
              'interpretation of get_cov / bias column / conv normalisation over named index spaces with size coefficients and units; '
@@ -26,3 +27,4 @@ def run(ctx: Ctx) -> None:
     ctx.do(R.rule_gates)
     ctx.do(C.rule_aff_avg)
     ctx.do(C.rule_excl_hook)
+    ctx.do(rule_num_prescale)
